@@ -6,9 +6,9 @@ import WP.Props.C06
   adaptive fee): amount bounds, the limit guard, "partial ⇒ stopped at the limit", the exact-out
   partial-fill rule, and the threshold decision of the handlers (`swapThreshold`).
   That the price ends between the limit and the start price needs the tick/price consistency
-  invariant (C09) carried through the loop: proved for static-fee pools in WP/Props/SwapPath.lean
-  (`swap_static`).  For adaptive-fee pools it is the stated obligation `PriceBounded` (decided by the
-  history correspondence and the implementation oracle).
+  invariant (C09) carried through the loop: proved (static and adaptive fee) in
+  WP/Props/SwapPath.lean (`swap_path`) for a tick/price-consistent starting state.  The unconditional
+  `PriceBounded` below (any starting state) is not claimed.
 -/
 namespace WP.C03
 open WP WP.Gen WP.C06
